@@ -18,7 +18,7 @@ func (g *gen) wouldRefuse(st *Step, hints map[string]string) bool {
 	if req == nil {
 		return false
 	}
-	mr := &model.Request{Method: req.Method, Path: req.URL.Path, H: headerMap(req), Body: st.Body, CondHint: hints}
+	mr := &model.Request{Method: req.Method, Path: req.URL.Path, Host: req.Host, H: headerMap(req), Body: st.Body, CondHint: hints}
 	c := *g.j
 	c.T = g.j.T.Clone()
 	return !c.Advance(mr)
